@@ -297,7 +297,17 @@ where
     }
 
     pub fn entry(&'_ mut self, key: Handle) -> Entry<'_, T> {
-        let ind = self.find_ind(key);
+        let mut ind = self.find_ind(key);
+        unsafe {
+            // a vacant entry is about to be filled: keep the load below MAX_LOAD like `insert`
+            // does, a full table would make the probe loop spin forever
+            if *self.handles.as_ptr().add(ind) != key
+                && (self.count + 1) as f32 > self.capacity as f32 * MAX_LOAD
+            {
+                self.grow().expect("Failed to grow the table");
+                ind = self.find_ind(key);
+            }
+        }
 
         let pl = unsafe {
             if *self.handles.as_ptr().add(ind) != key {
